@@ -119,7 +119,9 @@ func runFuzz(p *propSpec, work, modfile string, common []string, seed int64) []f
 		side := filepath.Join(work, "fuzzside-"+fs.Target)
 		os.MkdirAll(side, 0o755)
 		args := []string{"-test.run", "^$", "-test.fuzz", "^" + fs.Target + "$", "-test.fuzztime", strconv.Itoa(fs.Seconds) + "s", "-test.fuzzcachedir", cache, "-test.parallel", "16", "-test.timeout", strconv.Itoa(fs.Seconds+300) + "s"}
-		fc := exec.Command("sh", append([]string{"-c", fmt.Sprintf("ulimit -v %d; exec \"$0\" \"$@\"", maxInt(p.MemLimitMB, 4096)*1024), fbin}, args...)...)
+		// the limit is per process; the coordinator maps 100 MB of shared memory per worker and
+		// needs thread stacks on top, hence four times the limit of a plain test process
+		fc := exec.Command("sh", append([]string{"-c", fmt.Sprintf("ulimit -v %d; exec \"$0\" \"$@\"", maxInt(p.MemLimitMB, 4096)*4*1024), fbin}, args...)...)
 		fc.Dir = scratch
 		fc.Env = env(modfile, append(append([]string{}, common...), "VERIF_SIDE_DIR="+side, "VERIF_FUZZ=1", "VERIF_CORPUS="+filepath.Join(verifDir, "corpus"))...)
 		var out bytes.Buffer
